@@ -15,7 +15,9 @@ from lib import common  # noqa: E402
 from lib.common import P  # noqa: E402
 
 SYMF_DIR = os.path.join(common.VERIF, "symf")
-TARGET = os.path.join(common.CACHE, "symf-target")
+# an alternative tree (VERIF_REPO, used to confront seeded changes without touching /repo) gets its own
+# target directory, so that it can run next to checks of /repo
+TARGET = os.path.join(common.CACHE, "symf-target" if common.REPO == "/repo" else "symf-target-alt")
 BIN = os.path.join(TARGET, "release", "symf")
 _build_lock = __import__("threading").Lock()
 _built = {}
